@@ -41,7 +41,7 @@ S3 = '{{"t1"},{"t2"},{"t1","t2"}}'
 # measured with KeepT={FALSE} (16 workers, idle machine): quick 35 747 distinct / 723 028 transitions; 2 members, session 2, clock 3: 103 556 / 2 107 072 (82 s);
 # 3 members, session 2, clock 3, gen 3, KeepT both: 5 635 138 / 214 881 644 (24 min with 8 workers on a loaded machine) - too slow for a tier
 mc("MC_Group_quick.cfg", consts(["m1", "m2"], S2, "NP21", "{TRUE}", 3, 3), props=["AllC"])
-mc("MC_Group_thorough.cfg", consts(["m1", "m2", "m3"], S2, "NP21", "{TRUE}", 2, 2, sess=1, reb=1), props=["AllC"], nxt="NextCore")
+mc("MC_Group_thorough.cfg", consts(["m1", "m2", "m3"], S2, "NP21", "{TRUE}", 2, 3, sess=1, reb=1), props=["AllC"])
 mc("MC_Group_thorough2.cfg", consts(["m1", "m2"], S2, "NP21", "{TRUE,FALSE}", 3, 3), props=["AllC"])
 DEV = {"SubChange": ("FixSubChange", "C12"), "AssignAllMembers": ("DevAssignAllMembers", "C12"),
        "HbNoGen": ("DevHbNoGen", "C13"), "SyncNoGen": ("DevSyncNoGen", "C13"), "CommitNoGen": ("DevCommitNoGen", "C13"),
